@@ -486,7 +486,7 @@ BIG = [65535, 65536, 65537, 200000, 1 << 20]
 
 def gen_case(rng, cid, profile="mixed", maxops=24, races=False):
     """profile: 'stream' (C01), 'marks' (C13), 'close' (C03), 'mixed'.
-    races=True additionally issues shutdown()/forceClose() on foreign threads cut into load / store / hand-off
+    races=True additionally issues shutdown()/forceClose()/forceCloseWithDelay() on foreign threads cut into load / store / hand-off
     (XRC/XRS/XRE, thread ids >= 10): mostly with the three micro-steps adjacent or separated by ops that do not
     close the connection, and at low frequency with a close by the loop thread between load and store (finding F-19)."""
     mark = rng.choice([0, 1, 2, 5, 8, 16, 64, 1024, 64 * 1024 * 1024] if profile != "marks" else [1, 2, 3, 5, 8, 13, 16, 32, 64, 100])
@@ -603,7 +603,7 @@ def gen_case(rng, cid, profile="mixed", maxops=24, races=False):
         tid = 10
         for _ in range(nreq):
             tid += 1
-            r = rng.choice(["shut", "fc"])
+            r = rng.choice(["shut", "fc", "fcd"])
             pos = rng.randint(1, len(ops)) if ops else 0
             if rng.random() < 0.5:
                 ops[pos:pos] = ["XRC %d %s" % (tid, r), "XRS %d" % tid, "XRE %d" % tid]
@@ -615,7 +615,7 @@ def gen_case(rng, cid, profile="mixed", maxops=24, races=False):
         # the race proper, at the end of the case so that what follows the corrupted state is a fixed tail
         if rng.random() < 0.04:
             tid += 1
-            r = rng.choice(["shut", "fc"])
+            r = rng.choice(["shut", "fc", "fcd"])
             closer = rng.choice([["EOF"], ["HUP"], ["EOF", "RUN"], ["FC", "RUN"]])
             ops += ["XRC %d %s" % (tid, r)] + closer + ["XRS %d" % tid, "XRE %d" % tid, "RUN", "RUN"]
             return vlib.Case(cid, "%d %d %d" % (mark, wc, hw), ops, profile)
